@@ -143,6 +143,7 @@ def run(idx: ProgramIndex, rep: Report, tier: str):
     encoded_consistently(idx, rep)
     predictive_assembly(idx, rep)
     symmetric_mixing(idx, rep)
+    preprocessing_hook_not_skipped(idx, rep)
 
 
 # ---- C14-6: q(u) is what the parameters encode, for every reader and in every mode ---------------------------------------
@@ -893,3 +894,34 @@ def reshape_of_expanded_rows(idx: ProgramIndex, rep: Report):
                 "the rows are not taken from the parent's (batch-expanding) _compute_grid, or are reshaped with explicit sizes" if ok else
                 "`%s` reshapes the result of the parent's _compute_grid with a free -1, and the parent expands the rows to the variational batch shape: (D*n, 4) becomes (D, D*n, 4) and then (D, n, 4*D): every additive component interpolates with the interleaved rows of all components" % " ".join(src(free[0]).split())[:60], {})
     rep.floor("C14-17", "subclasses that override _compute_grid", n, 1)
+
+
+# ---- C14-18 --------------------------------------------------------------------------------------------------------
+def preprocessing_hook_not_skipped(idx: ProgramIndex, rep: Report):
+    """_VariationalStrategy.__call__ brings x and the inducing points to one batch shape through the hook `_expand_inputs`.  The base
+    implementation only broadcasts (idempotent), so skipping it when the two batch shapes already agree is an optimisation.  A
+    subclass whose override does more than broadcasting - BatchDecoupledVariationalStrategy inserts the mean / variance axis into x
+    there - is wrong whenever the hook is skipped: its inducing points are stored stacked as [2, M, D], so a user batch of exactly two
+    input sets has 'the same batch shape' and is then read as (mean copy, variance copy)."""
+    rep.rule("C14-18", "the pre-processing hook _expand_inputs runs on every call (not only when the batch shapes differ) unless every override only broadcasts: an override that inserts an axis must never be skipped")
+    from .c10 import _tests_around
+    B = idx.find_class("_VariationalStrategy")
+    call = B.methods.get("__call__")
+    sites = [c for c in calls_in(call.node) if isinstance(c.func, ast.Attribute) and c.func.attr == "_expand_inputs"] if call else []
+    if not sites:
+        raise AnalysisError("C14-18: _VariationalStrategy.__call__ no longer calls self._expand_inputs (anchor)")
+    guards = [t for t, pos in _tests_around(call.node, sites[0])]
+    conditional = [src(t) for t in guards if "shape" in src(t) or "size" in src(t)]
+    RESHAPING = {"unsqueeze", "stack", "cat", "reshape", "view", "repeat", "squeeze", "transpose", "permute"}
+    n = 0
+    for cls in sorted(idx.subclasses(B), key=lambda c: c.qualname):
+        ov = cls.methods.get("_expand_inputs")
+        if ov is None or cls is B:
+            continue
+        n += 1
+        ops = sorted({c.func.attr for c in calls_in(ov.node) if isinstance(c.func, ast.Attribute) and c.func.attr in RESHAPING} | {(chain(c.func) or "").split(".")[-1] for c in calls_in(ov.node) if (chain(c.func) or "").startswith("torch.") and (chain(c.func) or "").split(".")[-1] in RESHAPING})
+        ok = not conditional or not ops
+        rep.add("C14-18", "%s:%s._expand_inputs[not skipped]" % (cls.module.name, cls.qualname), ov.where, ok,
+                ("the hook runs on every call" if not conditional else "the override only broadcasts") if ok else
+                "the override re-shapes x (%s), but _VariationalStrategy.__call__ calls the hook only under `%s`: when the user's batch shape happens to equal the stored inducing batch shape the axis is not inserted - BatchDecoupledVariationalStrategy on x of shape [2, N, D] returns q(f) of shape [N] with the mean of x[0] and the covariance of x[1]" % (", ".join(ops), conditional[0]), {})
+    rep.floor("C14-18", "overrides of _expand_inputs", n, 1)
